@@ -92,6 +92,11 @@ CHECKS["C18"] = dict(
     note="Trusted: pysym interpreter/models, z3. pylatexenc itself is stubbed: decode(encode(t)) == t is outside the claim (DESIGN §6).",
     ref="§4 C18, §6")
 
+CHECKS["C20"] = dict(
+    text="parse_string / write_string are executed symbolically on a partly symbolic document for every combination of full stack / appended / prepended order-sensitive probe middlewares (block and library probes, passed as list, tuple or one-shot iterator) next to the explicit composition the statement describes, and z3 decides equality per final world; both-given raises ValueError; every per-block result kind (None, empty, block, list, tuple, generator, int, str, mixed list) is spliced or rejected with TypeError as stated; parse_file / write_file run against a recording open() stub for four encodings and both target kinds.",
+    note="Trusted: pysym interpreter/models, z3. Real codecs and the OS are outside the claim (open() is a stub; only argument pass-through and equality with the string entry points are claimed).",
+    ref="§4 C20")
+
 NOT_YET = "check not built yet in this round (engine exists; harness pending)"
 
 def main():
